@@ -8,7 +8,8 @@ Objects that Python shares by reference live in an explicit heap (`Heap`) of `Na
 * `lists`   — every Python list of adapters: the lists the *caller* built and passes as
               `adapters=[…]` / `clone([…])` (their references are recorded in `userLists`) and the
               `adapters` attribute of every connection (`Conn.alist`);
-* `dicts`   — the caller's `headers=` / `params=` dictionaries;
+* `dicts`   — every dict object: the caller's `headers=` / `params=` dictionaries (`userDicts`) and the
+              `headers` of every `RequestArguments` (a fresh object per request);
 * `impls`   — `_HttpConnImpl` objects (address, "send ids" flag, id counter), shared by all connections
               derived from one another (`conn_impl`);
 * `conns`   — `_HttpConnBase` objects;
@@ -19,20 +20,26 @@ What follows the code line by line:
                  allocates a *new* list; a `str` address loses one trailing `/`, the list / dict forms
                  of `conn_data` do not; `own_adapters` (used for `__str__` only) is not modelled;
 * `addAdapter` — `self.adapters.append(adapter)` writes through the connection's own list reference;
-* `applyReq`   — the three auth adapters (`assert 'Authorization' not in headers`, exact key), the path
-                 prefix adapter, and a tracing adapter of the harness (appends its tag to the `X-Trace`
-                 header, and to the returned value in `process_response`);
-* `request`    — `_HttpConnImpl.do_request`: `RequestArguments` holds a *copy* of the caller's headers
-                 (a value here: no other object ever holds that dict), adapters in list order, url,
-                 id header, method default, body by type, `urllib.request.Request` normalising header
-                 names with `str.capitalize` (later key wins), response processors in reverse order;
+* `applyReq`   — `process_req_args` of the three auth adapters (`assert 'Authorization' not in headers`,
+                 exact key), of the path prefix adapter, and of the harness's adapters (tracing: appends
+                 its tag to `X-Trace`; refusing: raises; the response processors leave the request alone);
+* `procResp`   — `process_response`: identity for the repository's adapters; tracing / unwrap / len /
+                 filter / nullify / raising for the harness's;
+* `request`    — `_HttpConnImpl.do_request`: `RequestArguments.headers` is a *new dict object* holding a
+                 copy of the caller's headers; the adapters (`applyAllH`) and the id / content-type
+                 assignments write to that object; url, method default, body by type (`json.dumps` =
+                 `J.dumps`, `bool(data)` = `Body.truthy`), `urllib.request.Request` normalising header
+                 names with `str.capitalize` (later key wins); the decoded response goes through the
+                 response processors in reverse order (`respFold`); an exception of an adapter ends the
+                 request (before sending: nothing sent, no id taken);
 * `getConn`    — `MCallerHttp.get_conn` with the per-caller cache keyed by prefix;
 * `clone`      — `MCallerHttp.clone` (after fix 622d998).
 
-Library text: `json.dumps(data)` and the truth value of a structured body come from the harness
-(`Body.json`); `base64.b64encode` is a parameter of the adapter constructors (`mkBasic`, `mkClient`);
-`b64enc` is the instance the driver uses. `quotePlus`/`urlencode` follow `urllib.parse` for `str` keys
-and values. `str.upper/lower/capitalize` are the ASCII ones (header names and methods are ASCII).
+Library text: `json.loads` of the response body comes from the harness as a parsed value (`Args.resp`);
+`base64.b64encode` is a parameter of the adapter constructors (`mkBasic`, `mkClient`); `b64enc` is the
+instance the driver uses (`Lemmas/HttpConnB64.lean` proves its decode law). `quotePlus`/`urlencode`
+follow `urllib.parse` for `str` keys and values. `str.upper/lower/capitalize` are the ASCII ones
+(header names and methods are ASCII). The list and dict forms of `conn_data` are one `Target.addr`.
 -/
 namespace HttpConn
 open Ak
@@ -94,6 +101,86 @@ def startsWithSlash : Str → Bool
 
 def endsWithSlash (s : Str) : Bool := s.getLast? = some '/'
 
+/-! ## JSON values (structured request bodies, decoded responses) -/
+
+mutual
+/-- what `json.loads` returns / `json.dumps` accepts here: no floats; object keys are strings -/
+inductive J where
+  | null | bool (b : Bool) | num (n : Int) | str (s : Str)
+  | arr (l : JL)      -- the keys of the items are ignored
+  | obj (kv : JL)
+  | raw               -- the urllib response object itself (`raw_response=True`); never part of a body
+  deriving DecidableEq, Repr
+inductive JL where
+  | nil | cons (k : Str) (v : J) (r : JL)
+  deriving DecidableEq, Repr
+end
+
+def JL.length : JL → Nat
+  | .nil => 0
+  | .cons _ _ r => r.length + 1
+
+/-- `d[k]` / `k in d` -/
+def JL.lookup : JL → Str → Option J
+  | .nil, _ => none
+  | .cons k v r, key => if k = key then some v else r.lookup key
+
+def JL.filter (p : J → Bool) : JL → JL
+  | .nil => .nil
+  | .cons k v r => if p v then .cons k v (r.filter p) else r.filter p
+
+/-- `l + [v]` -/
+def JL.snoc : JL → J → JL
+  | .nil, x => .cons [] x .nil
+  | .cons k v r, x => .cons k v (r.snoc x)
+
+/-- `bool(v)` -/
+def J.truthy : J → Bool
+  | .null => false
+  | .bool b => b
+  | .num n => n != 0
+  | .str s => !s.isEmpty
+  | .arr l => l.length != 0
+  | .obj kv => kv.length != 0
+  | .raw => true
+
+def hex4 (n : Nat) : Str :=
+  let h (d : Nat) : Char := if d < 10 then Char.ofNat (48 + d) else Char.ofNat (87 + d)
+  ['\\', 'u', h (n / 4096 % 16), h (n / 256 % 16), h (n / 16 % 16), h (n % 16)]
+
+/-- `json.encoder.py_encode_basestring_ascii` for one character -/
+def escChar (c : Char) : Str :=
+  let n := c.toNat
+  if c = '"' then ['\\', '"'] else if c = '\\' then ['\\', '\\']
+  else if 32 ≤ n ∧ n ≤ 126 then [c]
+  else if n = 10 then ['\\', 'n'] else if n = 13 then ['\\', 'r'] else if n = 9 then ['\\', 't']
+  else if n = 8 then ['\\', 'b'] else if n = 12 then ['\\', 'f']
+  else if n < 0x10000 then hex4 n
+  else hex4 (0xD800 + (n - 0x10000) / 1024) ++ hex4 (0xDC00 + (n - 0x10000) % 1024)
+
+def dumpStr (s : Str) : Str := '"' :: s.flatMap escChar ++ ['"']
+
+mutual
+/-- `json.dumps(v)` with the default settings (`ensure_ascii`, separators `", "` and `": "`) -/
+def J.dumps : J → Str
+  | .null => "null".toList
+  | .bool true => "true".toList
+  | .bool false => "false".toList
+  | .num n => (toString n).toList
+  | .str s => dumpStr s
+  | .arr l => '[' :: JL.dumpsArr l ++ [']']
+  | .obj kv => '{' :: JL.dumpsObj kv ++ ['}']
+  | .raw => []        -- not serialisable (json.dumps raises); the protocol never puts it into a body
+def JL.dumpsArr : JL → Str
+  | .nil => []
+  | .cons _ v .nil => v.dumps
+  | .cons _ v r => v.dumps ++ ',' :: ' ' :: JL.dumpsArr r
+def JL.dumpsObj : JL → Str
+  | .nil => []
+  | .cons k v .nil => dumpStr k ++ ':' :: ' ' :: v.dumps
+  | .cons k v r => dumpStr k ++ ':' :: ' ' :: v.dumps ++ ',' :: ' ' :: JL.dumpsObj r
+end
+
 /-! ## header dictionaries (insertion ordered) -/
 
 inductive HVal where
@@ -125,6 +212,12 @@ inductive Adapter where
   | pfx (p : Str)                       -- RequestAdapterAddPathPrefix
   | auth (kind : AuthKind) (hdr : HVal) -- the header value is computed in the adapter's `__init__`
   | trace (tag : Str)                   -- harness adapter (subclass of RequestAdapter)
+  -- harness adapters with a real `process_response` (identity on the request):
+  | unwrap (key : Str)                  -- `rv[key]` if `rv` is a dict that has the key
+  | count                               -- `len(rv)` of a list / str / dict
+  | compact                             -- `[x for x in rv if x]` of a list
+  | nullify                             -- `rv if rv else None`
+  | boom (onRequest : Bool)             -- raises ValueError in process_req_args / in process_response
   deriving DecidableEq, Repr
 
 /-- `BAuthConn.Adapter(login, password)` -/
@@ -161,6 +254,8 @@ def applyReq (a : Adapter) (ra : RA) : Except Err RA :=
     | none => .ok { ra with headers := dset ra.headers xtrace (.str t) }
     | some (.str s) => .ok { ra with headers := dset ra.headers xtrace (.str (s ++ t)) }
     | some _ => .error .typeError
+  | .boom true => .error .valueError
+  | _ => .ok ra
 
 /-- `for adapter in adapters: adapter.process_req_args(req_args)` -/
 def applyAll : List Adapter → RA → Except Err RA
@@ -174,9 +269,37 @@ def traceTag : Adapter → Option Str
   | .trace t => some t
   | _ => none
 
-/-- `for adapter in adapters[::-1]: ret_val = adapter.process_response(ret_val)`: the tags in the
-order in which the tracing adapters saw the response -/
-def responses (as : List Adapter) : List Str := as.reverse.filterMap traceTag
+/-- `adapter.process_response(return_value)` -/
+def procResp : Adapter → J → Except Err J
+  | .trace t, .arr l => .ok (.arr (l.snoc (.str t)))
+  | .trace t, v => .ok (.arr (.cons [] v (.cons [] (.str t) .nil)))
+  | .unwrap k, .obj kv =>
+    match kv.lookup k with
+    | some v => .ok v
+    | none => .ok (.obj kv)
+  | .count, .arr l => .ok (.num l.length)
+  | .count, .obj kv => .ok (.num kv.length)
+  | .count, .str s => .ok (.num s.length)
+  | .compact, .arr l => .ok (.arr (l.filter J.truthy))
+  | .nullify, v => .ok (if v.truthy then v else .null)
+  | .boom false, _ => .error .valueError
+  | _, v => .ok v
+
+/-- `for adapter in adapters[::-1]: ret_val = adapter.process_response(ret_val)`: the last adapter
+of the list sees the decoded response first, the first adapter produces what the caller gets -/
+def respFold : List Adapter → J → Except Err J
+  | [], decoded => .ok decoded
+  | a :: as, decoded =>
+    match respFold as decoded with
+    | .ok v => procResp a v
+    | .error e => .error e
+
+/-- `response.data.decode('utf-8')`, then `json.loads` unless empty (`none` = empty response body;
+the parsed value comes from the harness); with
+`raw_response=True` the response object itself goes to the processors -/
+def decodeResp (rawResponse : Bool) : Option J → J
+  | none => if rawResponse then .raw else .str []
+  | some v => if rawResponse then .raw else v
 
 /-! ## request assembly -/
 
@@ -184,14 +307,14 @@ inductive Body where
   | none
   | bytes (b : List Nat)
   | str (s : Str)
-  | json (truthy : Bool) (dump : Str)   -- `bool(data)` and `json.dumps(data)` from the harness
+  | json (v : J)       -- anything that is not None / bytes / str
   deriving DecidableEq, Repr
 
 def Body.truthy : Body → Bool
   | .none => false
   | .bytes b => !b.isEmpty
   | .str s => !s.isEmpty
-  | .json t _ => t
+  | .json v => v.truthy
 
 structure Impl where
   address : Str
@@ -206,7 +329,7 @@ structure Sent where
   headers : Dict          -- `Request.headers`: names capitalised, later wins
   body : Option (List Nat)
   genId : Option Nat      -- the number taken from the connection's counter, if an id was generated
-  resp : List Str
+  resp : Except Err J     -- what `do_request` returns, or the exception of a response processor
   deriving DecidableEq, Repr
 
 /-- `Request.__init__`: `for key, value in headers.items(): self.headers[key.capitalize()] = value` -/
@@ -236,12 +359,17 @@ def mkBody (data : Body) (h : Dict) : Option (List Nat) × Dict :=
   | .none => (none, h)
   | .bytes b => (some b, h)
   | .str s => (some (utf8s s), h)
-  | .json _ d =>
-    (some (utf8s d), if dhas h Gen.C17.ctHeader then h else dset h Gen.C17.ctHeader (.str Gen.C17.ctValue))
+  | .json v =>
+    (some (utf8s v.dumps), if dhas h Gen.C17.ctHeader then h else dset h Gen.C17.ctHeader (.str Gen.C17.ctValue))
+
+/-- the header dict after the id and content-type assignments of `do_request` (they go to the same
+dict object the adapters wrote to) -/
+def finalHeaders (impl : Impl) (ra : RA) (data : Body) : Dict :=
+  (mkBody data (withId impl.sendIds ra.headers).1).2
 
 /-- steps 2-4 of `do_request` and the `Request` constructor -/
 def assemble (impl : Impl) (ra : RA) (method : Option Str) (params : Option UDict) (data : Body)
-    (resp : List Str) : Sent :=
+    (resp : Except Err J) : Sent :=
   let w := withId impl.sendIds ra.headers
   let b := mkBody data w.1
   { url := mkUrl impl.address (withQuery ra.path params), method := mkMethod method data,
@@ -264,13 +392,14 @@ structure Caller where
 structure Heap where
   lists : List (List Adapter)
   userLists : List Nat
-  dicts : List UDict
+  dicts : List Dict        -- every dict object: the caller's (`userDicts`) and `RequestArguments.headers`
+  userDicts : List Nat
   impls : List Impl
   conns : List Conn
   callers : List Caller
   deriving DecidableEq, Repr
 
-def Heap.empty : Heap := ⟨[], [], [], [], [], []⟩
+def Heap.empty : Heap := ⟨[], [], [], [], [], [], []⟩
 
 /-- `conn_data` of a connection constructor -/
 inductive Target where
@@ -291,6 +420,8 @@ structure Args where
   params : Option Nat
   data : Body
   headers : Option Nat
+  resp : Option J      -- the body of the (fake) response: `none` = empty, else the parsed json
+  raw : Bool           -- `raw_response=True`
   deriving DecidableEq, Repr
 
 inductive Op where
@@ -353,15 +484,37 @@ def lookup {β} : List (Str × β) → Str → Option β
   | [], _ => none
   | (k', v) :: r, k => if k' = k then some v else lookup r k
 
-def optDict (H : Heap) : Option Nat → Option (Option UDict)
+def optDict (H : Heap) : Option Nat → Option (Option Dict)
   | none => some none
   | some r => match H.dicts[r]? with
     | some d => some (some d)
     | none => none
 
-def copyHeaders : Option UDict → Dict
-  | some d => d.map fun kv => (kv.1, HVal.str kv.2)
+def HVal.text : HVal → Option Str
+  | .str s => some s
+  | _ => none
+
+/-- a dict of the caller read as `str → str` (the `params=` argument); `none` for a dict object that
+holds something else (no such object is reachable for a caller) -/
+def toUDict : Dict → Option UDict
+  | [] => some []
+  | (k, v) :: r =>
+    match v.text, toUDict r with
+    | some t, some u => some ((k, t) :: u)
+    | _, _ => none
+
+def optParams (H : Heap) : Option Nat → Option (Option UDict)
+  | none => some none
+  | some r => match H.dicts[r]? with
+    | some d => (toUDict d).map some
+    | none => none
+
+/-- `headers.copy() if headers else {}`: the content of the new dict object -/
+def copyHeaders : Option Dict → Dict
+  | some d => d
   | none => []
+
+def ofUDict (d : UDict) : Dict := d.map fun kv => (kv.1, HVal.str kv.2)
 
 /-- what a request through `c` reads: the connection, its `conn_impl`, the content of `c.adapters` -/
 def connView (H : Heap) (c : Nat) : Option (Conn × Impl × List Adapter) :=
@@ -372,18 +525,43 @@ def connView (H : Heap) (c : Nat) : Option (Conn × Impl × List Adapter) :=
     | some impl, some as => some (cn, impl, as)
     | _, _ => none
 
-/-- a request through connection `c` (any of `get/post/…` passes the method; `do_request` itself
-accepts `None`) -/
-def request (H : Heap) (c : Nat) (args : Args) : Heap × Except Err Sent :=
-  match connView H c, optDict H args.headers, optDict H args.params with
-  | some (cn, impl, as), some hd, some pd =>
-    match applyAll as { path := args.path, headers := copyHeaders hd } with
+/-- `adapter.process_req_args(req_args)` where `req_args.headers` is the dict object `w`: the adapter
+reads and writes that object -/
+def applyReqH (a : Adapter) (H : Heap) (w : Nat) (path : Str) : Heap × Except Err Str :=
+  match H.dicts[w]? with
+  | none => (H, .error .keyError)
+  | some d =>
+    match applyReq a { path, headers := d } with
+    | .ok ra => ({ H with dicts := H.dicts.set w ra.headers }, .ok ra.path)
     | .error e => (H, .error e)
-    | .ok ra =>
-      let s := assemble impl ra args.method pd args.data (responses as)
-      match s.genId with
-      | some _ => ({ H with impls := H.impls.set cn.impl { impl with ctr := impl.ctr + 1 } }, .ok s)
-      | none => (H, .ok s)
+
+def applyAllH : List Adapter → Heap → Nat → Str → Heap × Except Err Str
+  | [], H, _, path => (H, .ok path)
+  | a :: as, H, w, path =>
+    match applyReqH a H w path with
+    | (H', .ok path') => applyAllH as H' w path'
+    | (H', .error e) => (H', .error e)
+
+/-- a request through connection `c` (any of `get/post/…` passes the method; `do_request` itself
+accepts `None`). `RequestArguments.headers` is a new dict object (reference `H.dicts.length`) holding a
+copy of the caller's headers; adapters and the id / content-type assignments write to that object. -/
+def request (H : Heap) (c : Nat) (args : Args) : Heap × Except Err Sent :=
+  match connView H c, optDict H args.headers, optParams H args.params with
+  | some (cn, impl, as), some hd, some pd =>
+    let w := H.dicts.length
+    let H1 := { H with dicts := H.dicts ++ [copyHeaders hd] }
+    match applyAllH as H1 w args.path with
+    | (H2, .error e) => (H2, .error e)
+    | (H2, .ok path) =>
+      match H2.dicts[w]? with
+      | none => (H2, .error .keyError)
+      | some hs =>
+        let ra : RA := { path, headers := hs }
+        let s := assemble impl ra args.method pd args.data (respFold as (decodeResp args.raw args.resp))
+        let H3 := { H2 with dicts := H2.dicts.set w (finalHeaders impl ra args.data) }
+        match s.genId with
+        | some _ => ({ H3 with impls := H3.impls.set cn.impl { impl with ctr := impl.ctr + 1 } }, .ok s)
+        | none => (H3, .ok s)
   | _, _, _ => (H, .error .keyError)
 
 /-- `MCallerHttp.get_conn()` called from a method declared with `components` -/
@@ -423,7 +601,9 @@ def step (H : Heap) : Op → Heap × Except Err Reply
       | some as => ({ H with lists := H.lists.set l (as ++ [a]) }, .ok .unit)
       | none => (H, .error .keyError)
     else (H, .error .keyError)
-  | .newDict d => ({ H with dicts := H.dicts ++ [d] }, .ok (.ref H.dicts.length))
+  | .newDict d =>
+    ({ H with dicts := H.dicts ++ [ofUDict d], userDicts := H.userDicts ++ [H.dicts.length] },
+     .ok (.ref H.dicts.length))
   | .mk t own plain =>
     match mkConn H t own plain with
     | some (H', n) => (H', .ok (.ref n))
